@@ -71,14 +71,18 @@ T_Rdata ==
 RecOf(j) == LET x == MnemonicOf(j.rtype)
                 n == FromWire(j.owner, 1)
                 r == ParseRd(x, j.rd)
-            IN [ok |-> n.ok /\ r.ok, class |-> j.class, owner |-> IF n.ok THEN n.name ELSE <<>>,
+            IN [ok |-> n.ok /\ r.ok, hard |-> ~n.ok \/ (~r.ok /\ r.hard), class |-> j.class, owner |-> IF n.ok THEN n.name ELSE <<>>,
                 ttl |-> j.ttl, code |-> j.rtype, t |-> x, val |-> IF r.ok THEN r.val ELSE <<>>]
+\* as in T_Rdata: a record whose data the library accepted although it breaks
+\* an RFC content rule has no abstract value and is not judged; one with no
+\* reading at all must not have been accepted
+NotJudged(r, s) == (r.ok \/ ~r.hard) /\ (s.ok \/ ~s.hard)
 T_Record ==
   /\ IsEv("record") /\ NoPanic /\ UNCHANGED devs
   /\ LET e == Rec[l]
          r == RecOf(e.a)
          s == RecOf(e.b)
-     IN /\ r.ok /\ s.ok
+     IN IF ~r.ok \/ ~s.ok THEN NotJudged(r, s) ELSE
         /\ LET free == RecEqFree(r, s) /\ e.eq = e.cmp0
                o == [eq |-> IF free THEN Free ELSE e.eq, cmp0 |-> IF free THEN Free ELSE e.cmp0,
                      canon |-> IF RecCanonPinned(r, s) THEN e.canon ELSE Free,
@@ -86,6 +90,24 @@ T_Record ==
                      q_eq |-> e.q_eq, q_canon |-> e.q_canon,
                      hash_ok |-> e.hash_ok, hash_ok_hq |-> e.hash_ok_hq, issues |-> e.issues]
            IN Matches(o, RecExp(r, s), RecDev(r, s))
+
+\* two records, their data in representation e.rep (held differently on the
+\* two sides; "ext": a record data type outside the library that answers
+\* e.xans across types): the order is the pinned one whatever the data type
+\* answers across types
+T_XRecord ==
+  /\ IsEv("xrecord") /\ NoPanic /\ UNCHANGED devs
+  /\ LET e == Rec[l]
+         r == RecOf(e.a)
+         s == RecOf(e.b)
+     IN IF ~r.ok \/ ~s.ok THEN NotJudged(r, s) ELSE
+        /\ e.rep \in DataReps /\ IsSign(e.xans)
+        /\ RecRepLawM(e.rep, e.xans, r, s, {})
+        /\ LET free == RecEqFree(r, s) /\ e.eq = e.cmp0
+               o == [eq |-> IF free THEN Free ELSE e.eq, cmp0 |-> IF free THEN Free ELSE e.cmp0,
+                     canon |-> IF RecCanonPinned(r, s) THEN e.canon ELSE Free,
+                     hash_ok |-> e.hash_ok, issues |-> e.issues]
+           IN o = XrecExp(e.rep, r, s)
 
 \* a name through a carrier (Order.tla): the recorded answers are those of
 \* the denoted name, whatever the carrier
@@ -128,7 +150,7 @@ T_Crecord ==
   /\ LET e == Rec[l]
          r == RecOf(e.a)
          s == RecOf(e.b)
-     IN /\ r.ok /\ s.ok
+     IN IF ~r.ok \/ ~s.ok THEN NotJudged(r, s) ELSE
         /\ WfAbs(e.oc) /\ Denote(e.oc) = r.owner /\ Carries(r.t, r.val, e.cs)
         /\ CarriedRecLawM(r, e.oc, e.cs, {})
         /\ LET o == [compose |-> e.compose, canon_wire |-> e.canon_wire, hdr_canon |-> e.hdr_canon,
@@ -136,7 +158,7 @@ T_Crecord ==
                      issues |-> e.issues]
            IN o = CrecExp(r, s)
 
-TNext == T_Devs \/ T_Label \/ T_Name \/ T_CharStr \/ T_Rdata \/ T_Record
+TNext == T_Devs \/ T_Label \/ T_Name \/ T_CharStr \/ T_Rdata \/ T_Record \/ T_XRecord
            \/ T_Carrier \/ T_RCarrier \/ T_CPair \/ T_Crdata \/ T_Crecord
 TSpec == TInit /\ [][TNext]_tvars
 
